@@ -63,6 +63,17 @@ Build(bodies) ==
 \* the same grammar with every Memoize wrapper in M removed (C03)
 Strip(G, M) == [i \in 1..Len(G) |-> IF i \in M /\ G[i].k = "memo" THEN [G[i] EXCEPT !.k = "pass"] ELSE G[i]]
 
+\* every Any / Choice wrapped in a Name: the wrapper nodes are appended, references are redirected
+NameAllG(G) ==
+  LET idx == {i \in 1..Len(G) : G[i].k \in {"any", "choice"}}
+      rank(i) == Cardinality({j \in idx : j <= i})
+      newId(i) == IF i \in idx THEN Len(G) + rank(i) ELSE i
+      redirected == [i \in 1..Len(G) |-> [G[i] EXCEPT !.kids = [q \in 1..Len(G[i].kids) |-> newId(G[i].kids[q])]]]
+      wrappers == [r \in 1..Cardinality(idx) |->
+                     LET i == CHOOSE j \in idx : rank(j) = r
+                     IN N("named", "", <<i>>, 0, "was expecting N" \o ToString(i))]
+  IN redirected \o wrappers
+
 \* ---- families --------------------------------------------------------------------
 \* leaves and atoms over one nonterminal P = Ref(1)
 A == Tm(97)
